@@ -578,6 +578,59 @@ def run(loader, R, tier):
     # --------------------------------------------------------------- R44.10
     infix_operands(prog, R, "R44.10")
 
+    # --------------------------------------------------------------- R44.11
+    # order of composed output: a forward loop over a sequence that inserts
+    # something built from each element at the *front* of an output
+    # sequence reverses the order (an exponent 2/3 was drawn as 3 over 2)
+    R.rule("R44.11", "no forward loop prepends its elements to an output "
+                     "sequence (order reversal)")
+    npre = 0
+    ncontrol11 = 0
+    for u, f in sorted(prog.functions.items(), key=lambda kv: kv[1]["qn"]):
+        control11 = f["qn"].startswith("verif_positive::")
+        if not f.get("body") or f.get("dependent") or not (
+                control11 or "/symengine/printers/" in (f.get("file") or "")):
+            continue
+        for lp in walk(f["body"]):
+            if lp.get("k") != "forr" or not (lp.get("v") or {}).get("n"):
+                continue
+            var = lp["v"]["n"]
+            if "rbegin" in show(lp.get("r") or {}) \
+                    or "reverse" in show(lp.get("r") or {}):
+                continue
+            for n in walk(lp.get("b") or {}):
+                if not (n.get("k") == "mcall" and n.get("n") in (
+                        "insert", "emplace") and len(n.get("a", ())) >= 2):
+                    continue
+                pos = n["a"][0]
+                while pos.get("k") in ("cast", "ctor") and len(
+                        [a for a in pos.get("a", ())
+                         if a.get("k") != "defarg"]) == 1:
+                    pos = [a for a in pos["a"] if a.get("k") != "defarg"][0]
+                at_front = pos.get("k") == "mcall" \
+                    and pos.get("n") in ("begin", "cbegin") \
+                    and show(pos.get("o") or {}) == show(n.get("o") or {})
+                uses = any(y.get("k") == "ref" and y.get("n") == var
+                           for a in n["a"][1:] for y in walk(a))
+                if not (at_front and uses):
+                    continue
+                if control11:
+                    ncontrol11 += 1
+                    continue
+                npre += 1
+                key = "%s:%s" % (short(f["qn"]), show(n.get("o") or {}))
+                R.instance("R44.11", key)
+                R.violation(
+                    "R44.11", key, prog.loc(f, n.get("l")),
+                    "%s walks `%s` forwards and inserts each element at the "
+                    "front of `%s`: the elements end up in reverse order "
+                    "(a multi-line exponent is drawn upside down)" % (
+                        short(f["qn"]), show(lp.get("r") or {})[:40],
+                        show(n.get("o") or {})))
+    R.info["front_insertions_in_forward_loops"] = npre
+    R.floor("positive control (verif_positive::stack_lines_reversed) "
+            "recognised", ncontrol11, 1)
+
     # ---------------------------------------------------------------- totality
     unsupported = {}
     for v in ALL_PRINTERS:
